@@ -50,6 +50,7 @@ TFinal ==
     /\ AllIdle
     /\ Ev.obs.futDropped = (fut = "dropped")
     /\ Ev.obs.outTaken = (out = "taken")
+    /\ Ev.obs.outDrops = (IF out \in {"taken", "dropped"} THEN 1 ELSE 0)     \* the output counts its drops
     /\ Ev.obs.npolls = npolls
     /\ Ev.obs.runq = runq
     /\ UNCHANGED <<vars, open>>
